@@ -1,7 +1,7 @@
 """Which properties are claimed in MANIFEST.json, with the words that go there."""
 TB = ("Trusted: Coq kernel (coqc, full .vo), no axioms (Print Assumptions = closed for every theorem); the hand-written model "
       "is tied to the code by the correspondence check (harness + extracted model on the same cases), so assurance is "
-      "bounded by that check's generators, and - for 78 functions: the loop-free integer/decision kernel, the pointer-level iterator state machines of iter_mut.rs with their constructors and public entry points, the raw-pointer swaps and the row/column view helpers - by the rs2v translator "
+      "bounded by that check's generators, and - for 83 functions: the loop-free integer/decision kernel, the pointer-level iterator state machines of iter_mut.rs with their constructors and public entry points, the raw-pointer swaps, the row/column view helpers, transpose with its loop and the order changes, and the constructors of construct.rs - by the rs2v translator "
       "(regenerated from the source on every run, each proved equal to the model's kernel function; translator trusted); "
       "extraction with ExtrOcamlBasic; std/Vec/ptr semantics are modelled, not verified.")
 CLAIMED = {
@@ -16,7 +16,7 @@ CLAIMED = {
 }
 CLAIMED.update({
     'C05': ("Rocq proof of cycle-following transpose on the list model + differential correspondence",
-            "transpose of the executable model (the cycle-following loop with visited bitmap and fuel, statement for statement) is proved to be the exact transpose for every coherent shape and both orders: "
+            "transpose of the executable model (the cycle-following loop with visited bitmap and fuel, statement for statement; since this round the model is also proved equal to the translation of lib.rs's transpose / switch_order / set_order by rs2v, loop included) is proved to be the exact transpose for every coherent shape and both orders: "
             "terminates, never leaves the buffer, moves elements (Permutation), is an involution; switch_order/set_order preserve logical contents, the _without_rearrangement variants the memory sequence. "
             "Model validated against the crate on every shape up to 8x8 (thorough 20x20) and random compositions of the five operations.",
             TB, "DESIGN §7 C05"),
@@ -113,8 +113,10 @@ CLAIMED.update({
             "The machines IterVectorsMut / IterNthVectorMut are modelled statement for statement on pointer values (NonNull::add/sub = UB outside the allocation, new_unchecked(null) = UB, machine-integer "
             "arithmetic) for every element size incl. zero and every alignment. Proved for every layout satisfying the two matrix layouts' arithmetic and EVERY finite program of next/next_back calls on the "
             "outer iterator and all inner iterators kept alive: no UB and no panic, each position handed out at most once, exactly once when exhausted, at the address base + index*size of its element "
-            "(zero-sized: a counter in 1..=len, never null or wrapped), len() exact at every step. Proving the counters never overflow exposed finding F4 (fixed in /repo; old constructor refuted by witness). "
-            "Correspondence: nested scripts on all shapes <= 4x4, both orders/axes, five element types (40, 24, 1, 0, 0 bytes; with and without drop glue), exhaustive short scripts, pointer events range-checked via verif-hooks, "
+            "(zero-sized: a counter in 1..=len, never null or wrapped), len() exact at every step. The public entry points are part of the proof: iter_rows_mut / iter_cols_mut of a coherent matrix "
+            "(through over_major_axis / over_minor_axis, the unchecked NonNull / NonZero conversions and assemble, all translated from the source) build exactly that machine in the layout of the storage order, "
+            "an element-less matrix gets the detached empty iterator (C03_entry_*). Proving the counters never overflow exposed finding F4 (fixed in /repo; old constructor refuted by witness). "
+            "Correspondence: nested scripts of next / next_back / len / nth(k) / nth_back(k) on all shapes <= 4x4, both orders/axes, five element types (40, 24, 1, 0, 0 bytes; with and without drop glue), exhaustive short scripts, pointer events range-checked via verif-hooks, "
             "and zero-sized matrices with up to usize::MAX elements of alignment 1..8 run against the extracted pointer-level model.",
             TB + " Provenance and aliasing are represented by addresses and allocation bounds only.", "DESIGN §7 C03"),
 })
